@@ -217,9 +217,19 @@ func VerifC19_KShadow() {
 		"(flet ((car (a b) 1)) (car 1 2))\n(flet ((other (a) a)) (car %ARGS%))",
 		"(defun f () (let* ((car 1)) car))\n(defun g () (labels ((h (x) (car %ARGS%))) (h 1)))\n(g)",
 		"(let ((k 1)) (car %ARGS%))\n(let ((car 1)) car)",
+		// the call sits INSIDE the binding list of the form that shadows the name: a later let*
+		// initialiser and a lambda written in any initialiser reach the shadow, a plain let
+		// initialiser evaluated directly does not
+		"(let* ((car (lambda (a b) 1)) (y (car %ARGS%))) y)",
+		"(let* ((car (lambda (a b) 1)) (f (lambda () (car %ARGS%)))) (funcall f))",
+		"(let ((car (lambda (a b) 1)) (f (lambda () (car %ARGS%)))) (funcall f))",
+		"(let ((car (lambda (a b) 1)) (y (car %ARGS%))) y)",
+		"(let* ((y (car %ARGS%)) (car (lambda (a b) 1))) y)",
+		"(labels ((car (a b) 1) (f () (car %ARGS%))) (f))",
+		"(flet ((car (a b) 1) (f () (car %ARGS%))) (f))",
 	}
 	// which arity the final/inner (car ...) call reaches: the builtin (1) or the shadow (2)
-	reaches := []int{1, 1, 1, 2, 2, 2, 1, 1, 1, 1}
+	reaches := []int{1, 1, 1, 2, 2, 2, 1, 1, 1, 1, 2, 2, 2, 1, 1, 2, 1}
 	fi := vndChoice("form", len(forms))
 	k := vndInt("k")
 	vAssume(k >= 0)
@@ -242,6 +252,11 @@ func VerifC19_KShadow() {
 		vCover("reported")
 	}
 	if reaches[fi] == 1 && bindFails {
+		// KNOWN FINDING: the shadow is applied to the WHOLE binding form, including the parts of its
+		// binding list that are evaluated outside the new scope
+		if (fi == 13 || fi == 14 || fi == 16) && !lint && vKnown("C19-shadow-covers-whole-binding-form", true) {
+			return
+		}
 		vAssert(lint, "calls that still reach the builtin keep being checked")
 	}
 	if fi == 3 && bindFails && !lint {
